@@ -537,6 +537,9 @@ impl<'a, R: RealNumberInternalTrait> Interpreter<'a, R> {
         Ok(library)
     }
     pub fn eval_import_set(&mut self, import: &ImportSet) -> Result<Vec<(String, Value<R>)>> {
+        #[cfg(ruschm_verif)]
+        let _verif_guard = crate::verif_hooks::enter_loader()
+            .map_err(|_| ErrorData::from(LogicError::Extension("verif: budget exhausted (loader nesting)".to_string())).no_locate())?;
         match &import.data {
             ImportSetBody::Direct(lib_name) => {
                 if self
